@@ -109,7 +109,7 @@ static void world_teardown(void)
     /* every report-printing function on whatever state the objects are in (C10) */
     FILE *nul = fopen("/dev/null", "w");
     if (nul) {
-        for (int k = 0; k < nrec; k++) { if (!REC[k].ever || cmb_timeseries_count(rec_hist(&REC[k])) < 1) continue;
+        for (int k = 0; k < nrec; k++) { if (!REC[k].ever || cmb_timeseries_count(rec_hist(&REC[k])) < 1) VR_CNT("reports_printed_of_objects_that_never_recorded");     /* nothing to report is a report too */
             c14_report(k);
             VR_CNT("reports_printed"); }
         fclose(nul);
